@@ -9,14 +9,19 @@ examples over <= 3 labels x label kinds x label types given / inferred x label c
 by name x take), checks the design invariants (the label is the unique best offered action, ...) and prints
 input and expected interactions.  The driver builds the real source from the printed input (Python only
 converts values), constructs SupervisedSimulation three ways (positional, keywords,
-Environments.from_supervised), reads it and compares every interaction with the spec's.  The reservoir
+Environments.from_supervised) and compares every interaction with the spec's.  Reads are repeated on ONE object
+(Supervised.tla Plan / ReadExpect: every read of a simulation delivers the same interactions): the positional object
+is read a first time, a second time, once abandoned after the first interaction and once more after that; the
+from_supervised object is read through two shuffled pipelines that share it (each a permutation of the expectation).
+Failures that only a later read shows are reported as <kind>:second-read:.. / :abandoned-read: / :after-abandoned-read: /
+<kind>:fanout:second-pipeline:..  The reservoir
 sample is a parameter of the spec: the positions the real Reservoir(take) picks from n items are handed to
 TLC, which checks that they form a sample (predicate IsSample) and defines the expected interactions over it."""
 import json, os
 from .. import tlc, tracecheck
 
 FINISH = dict(level="model_checking",
-              rule="a case = one TLC-generated supervised dataset + source presentation + label column/type + take, read through the real SupervisedSimulation (three construction styles) and compared interaction by interaction; distinct = distinct cases")
+              rule="a case = one TLC-generated supervised dataset + source presentation + label column/type + take, read through the real SupervisedSimulation (three construction styles; one object read four times, one object shared by two shuffled pipelines) and compared interaction by interaction on every read; distinct = distinct cases")
 LEVELS = ["b", "a", "c"]
 MAXN, MAXTAKE = 6, 5
 
@@ -35,8 +40,9 @@ def run(ctx):
         runs = [("rows4-" + s, dict(big, **{"Srcs <- AllSrcs": 'Srcs = {%s}' % ", ".join('"%s"' % x for x in grp)}))
                 for s, grp in (("obj", ["xy", "rows"]), ("rowsH", ["rowsH"]), ("sparse", ["sparse"]), ("csv", ["csv", "csvH"]),
                                ("arff", ["arff"]), ("sp-text", ["arffS", "libsvm", "manik"]))]
-        runs.append(("takes3", {"Takes <- TakesQuick": "Takes <- TakesFull", "XKs <- XKsQuick": "XKs <- XKsAll"}))
-        runs.append(("rows5", {"MaxRows = 3": "MaxRows = 5", "Takes <- TakesQuick": "Takes <- TakesTwo", "Shapes <- ShapesQuick": "Shapes <- ShapesOne"}))
+        runs.append(("takes3", {"Takes <- TakesQuick": "Takes <- TakesRest", "Shapes <- ShapesQuick": "Shapes <- ShapesFull"}))
+        runs.append(("rows5", {"MaxRows = 3": "MaxRows = 5", "Takes <- TakesQuick": "Takes <- TakesTwo", "Shapes <- ShapesQuick": "Shapes <- ShapesOne",
+                               "Srcs <- AllSrcs": 'Srcs = {"xy", "rowsH", "sparse", "csvH", "arff", "libsvm"}'}))
     total = 0
     for name, sub in runs:
         cfg = tracecheck._cfg("Supervised.cfg", sub, ctx.scratch, "sup_%s.cfg" % name)
@@ -47,7 +53,7 @@ def run(ctx):
                 ctx.violation("take:not-a-sample", "Reservoir(take) did not return min(take, n) distinct positions: %s" % " ".join(v["trace"][:12]), v["trace"][:40])
             else:
                 raise RuntimeError("Supervised.tla violates its own invariant %s:\n%s" % (v["name"] or v["kind"], "\n".join(v["trace"][:40])))
-        cases = [j for j in r.json if isinstance(j, dict) and "out" in j and "inp" in j]
+        cases = [j for j in r.json if isinstance(j, dict) and "out" in j and "inp" in j and "plan" in j]
         del r
         if len(cases) < 1000: raise RuntimeError("Supervised %s produced only %d cases" % (name, len(cases)))
         cases.sort(key=lambda c: json.dumps(c["case"], sort_keys=True))
@@ -66,7 +72,7 @@ def run(ctx):
         "numeric label types on text that the reader leaves as strings (CSV 'r', LibSVM 'r') and nominal labels in sparse ARFF (reader adds a level '0' by design) are outside the domain",
         "take is explored for sources only (the X, Y overload documents no take); the sample positions come from the real Reservoir and are checked by TLC to be a sample (C09 decides which sample)",
         "file syntax is the spec's canonical writer (no quoting, no blanks): syntax variety is C12's subject",
-        "each environment is read once (re-reading is C04's subject)"]
+        "every simulation object built positionally is read four times (first, second, abandoned after one interaction, after that); the fan-out is two shuffled pipelines over one from_supervised simulation, built with .filter([Shuffle(0), Shuffle(1)]) because .shuffle(n=2) also appends Finalize (C10's subject); which permutation Shuffle produces is C09's subject"]
 
 
 def _brief(c):
@@ -104,39 +110,103 @@ def make_source(inp):
 
 
 def builders(inp):
-    """The ways the public API lets one state the same environment."""
+    """The ways the public API lets one state the same environment: each returns (simulation, Environments or None)."""
     from coba.environments import SupervisedSimulation, Environments
     lt = None if inp["lt"] == "none" else inp["lt"]
+    def via_envs(envs): return envs._envs[0], envs      # the un-finalized simulation (Finalize is C10's subject)
     if inp["src"] == "xy":
         X = lambda: [to_py(x, tuple) for x in inp["xs"]]
         Y = lambda: [to_py(y) for y in inp["ys"]]
-        yield "positional", (lambda: SupervisedSimulation(X(), Y(), lt)) if lt else (lambda: SupervisedSimulation(X(), Y()))
-        yield "keywords", lambda: SupervisedSimulation(X(), Y(), label_type=lt)
-        yield "from_supervised", lambda: Environments.from_supervised(X(), Y(), label_type=lt)._envs[0]
+        yield "positional", (lambda: (SupervisedSimulation(X(), Y(), lt), None)) if lt else (lambda: (SupervisedSimulation(X(), Y()), None))
+        yield "keywords", lambda: (SupervisedSimulation(X(), Y(), label_type=lt), None)
+        yield "from_supervised", lambda: via_envs(Environments.from_supervised(X(), Y(), label_type=lt))
         return
     take = None if inp["take"] == -1 else inp["take"]
     lc = to_py(inp["labelcol"])
     args = [lc, lt, take]
     while args and args[-1] is None: args.pop()
-    yield "positional", lambda: SupervisedSimulation(make_source(inp), *args)
-    yield "keywords", lambda: SupervisedSimulation(source=make_source(inp), label_col=lc, label_type=lt, take=take)
-    yield "from_supervised", lambda: Environments.from_supervised(make_source(inp), lc, label_type=lt, take=take)._envs[0]
+    yield "positional", lambda: (SupervisedSimulation(make_source(inp), *args), None)
+    yield "keywords", lambda: (SupervisedSimulation(source=make_source(inp), label_col=lc, label_type=lt, take=take), None)
+    yield "from_supervised", lambda: via_envs(Environments.from_supervised(make_source(inp), lc, label_type=lt, take=take))
+
+
+def prep(c):
+    """The spec's expected interactions converted to Python values, once per case."""
+    seqt = tuple if c["case"]["src"] == "xy" else list
+    return [(to_py(o["ctx"], seqt), [to_py(a) for a in o["acts"]], [(to_py(a), num, den) for a, (num, den) in o["rw"]]) for o in c["out"]]
+
+
+def _tag(sig, tag):
+    a, _, b = sig.partition(":")
+    return "%s:%s:%s" % (a, tag, b)
 
 
 def replay(ctx, c):
-    """Every construction style; every aspect of every interaction.  A problem whose signature is a listed known
-    finding does not end the comparison: the remaining aspects of the same case are still compared."""
+    """Three objects per case, one per construction style.
+    positional: ONE object gets all reads of the spec's Plan (first read, second read, a read abandoned after the first
+      interaction, a read after that), each compared with the same expectation (Supervised.tla ReadExpect).
+    keywords: one complete read.
+    Environments.from_supervised: the two pipelines of a shuffle fan-out (.filter([Shuffle(0), Shuffle(1)]), what
+      .shuffle(n=2) builds before it appends Finalize - C10's subject), which share the one simulation: each must deliver
+      a permutation of the expectation.
+    A problem that the first read shows as well keeps its plain signature; one that only a later read shows is reported
+    as <kind>:second-read:<what> / <kind>:abandoned-read:<what> / <kind>:after-abandoned-read:<what>; the fan-out reports
+    <kind>:fanout:<what> (pipeline 0) and <kind>:fanout:second-pipeline:<what> (only the second pipeline fails).
+    A problem whose signature is a listed known finding does not end the comparison."""
+    from coba.environments import Shuffle
+    exp, T, k = prep(c), c["T"], c["case"]
+    def report(sig, what, style):
+        return ctx.violation(sig, "%s  [src=%s label=%s label_type=%s label_col=%s take=%s n=%d, built by %s] input=%s" % (
+            what, k["src"], k["lk"], k["lt"], json.dumps(c["inp"]["labelcol"]["v"]) if c["inp"]["labelcol"]["t"] != "none" else None,
+            k["take"], k["n"], style, json.dumps(c["inp"]["lines"] or c["inp"]["rows"] or [c["inp"]["xs"], c["inp"]["ys"]])[:500]),
+            dict(case=c["case"], inp=c["inp"], expected=c["out"], style=style, plan=c["plan"]))
     for style, build in builders(c["inp"]):
-        reported = set()
-        for sig, what in replay_one(c, build):
-            if sig in reported: continue
-            reported.add(sig)
-            k = c["case"]
-            fresh = ctx.violation(sig, "%s  [src=%s label=%s label_type=%s label_col=%s take=%s n=%d, built by %s] input=%s" % (
-                what, k["src"], k["lk"], k["lt"], json.dumps(c["inp"]["labelcol"]["v"]) if c["inp"]["labelcol"]["t"] != "none" else None,
-                k["take"], k["n"], style, json.dumps(c["inp"]["lines"] or c["inp"]["rows"] or [c["inp"]["xs"], c["inp"]["ys"]])[:500]),
-                dict(case=c["case"], inp=c["inp"], expected=c["out"], style=style))
-            if fresh: return     # one unlisted violation per case is enough
+        try:
+            sim, envs = build()
+        except Exception as e:
+            if report("%s:read:raises" % T, "constructing the environment raised %s: %s" % (type(e).__name__, str(e)[:150]), style): return
+            continue
+        if style == "from_supervised":
+            try:
+                outs = [list(p.read()) for p in envs.filter([Shuffle(0), Shuffle(1)])._envs]
+            except Exception as e:
+                if report("%s:fanout:raises" % T, "reading the two shuffled pipelines over one from_supervised simulation raised %s: %s" % (type(e).__name__, str(e)[:150]), style): return
+                continue
+            bad = [match_any_order(got, exp, T, k) for got in outs]
+            if bad[0]:
+                if report("%s:fanout:%s" % (T, bad[0][0]), "pipeline 0 of two shuffled pipelines over one from_supervised simulation: %s" % bad[0][1], style): return
+            elif bad[1]:
+                if report("%s:fanout:second-pipeline:%s" % (T, bad[1][0]), "pipeline 1 of two shuffled pipelines over one from_supervised simulation (pipeline 0 was right): %s" % bad[1][1], style): return
+            continue
+        base, reported, prev = set(), set(), None
+        for r, step in enumerate(c["plan"] if style == "positional" else c["plan"][:1]):
+            kind = step["kind"]
+            tag = None if r == 0 else "abandoned-read" if kind == "abandon" else "after-abandoned-read" if prev == "abandon" else "second-read"
+            prev = kind
+            for sig, what in read_and_compare(sim, exp[:step["n"]], T, k, abandon=(kind == "abandon")):
+                if tag is None: base.add(sig)
+                elif sig in base: continue          # not a failure of the later read only
+                else: sig, what = _tag(sig, tag), "read %d of the same object (%s): %s" % (r + 1, tag, what)
+                if sig in reported: continue
+                reported.add(sig)
+                if report(sig, what, style): return     # one unlisted violation per case is enough
+
+
+def match_any_order(got, exp, T, k):
+    if len(got) != len(exp): return "count", "%d interactions, expected %d" % (len(got), len(exp))
+    free = list(range(len(exp)))
+    for n, g in enumerate(got):
+        hit = next((j for j in free if not any(True for _ in check_interaction(n, g, exp[j], T, k, None))), None)
+        if hit is None: return "interactions", "interaction %d (context %r, actions %r, rewards %r) is none of the expected interactions still unmatched" % (n, _safe(lambda: _ctx_view(g["context"])), g.get("actions"), g.get("rewards"))
+        free.remove(hit)
+    firsts = [list(g["actions"]) for g in got] if T in ("c", "m") else []
+    if any(a != firsts[0] for a in firsts): return "actions:vary", "the interactions offer different action sequences %r" % firsts
+    return None
+
+
+def _safe(f):
+    try: return f()
+    except Exception as e: return "<%s>" % type(e).__name__
 
 
 def _ctx_view(g):
@@ -146,65 +216,72 @@ def _ctx_view(g):
     return list(g)
 
 
-def replay_one(c, build):
-    T, out, k = c["T"], c["out"], c["case"]
+def read_and_compare(sim, want, T, k, abandon=False):
     try:
-        got = list(build().read())
+        if abandon:
+            it = iter(sim.read())
+            got = [g for g in [next(it, None)] if g is not None]
+            if hasattr(it, "close"): it.close()      # the consumer walks away
+            del it
+        else:
+            got = list(sim.read())
     except Exception as e:
         yield "%s:read:raises" % T, "reading the environment raised %s: %s" % (type(e).__name__, str(e)[:150]); return
-    if len(got) != len(out):
-        yield "%s:count" % T, "%d interactions, expected %d" % (len(got), len(out)); return
-    first = None
-    for n, (g, o) in enumerate(zip(got, out)):
-        # ---- context = the example's features without the label ----
-        exp = to_py(o["ctx"], tuple if k["src"] == "xy" else list)
+    if len(got) != len(want):
+        yield "%s:count" % T, "%d interactions, expected %d" % (len(got), len(want)); return
+    first = [None]
+    for n, (g, e) in enumerate(zip(got, want)):
+        yield from check_interaction(n, g, e, T, k, first)
+
+
+def check_interaction(n, g, e, T, k, first):
+    exp, want, probes = e
+    # ---- context = the example's features without the label ----
+    try:
+        seen = _ctx_view(g["context"])
+    except Exception as ex:
+        yield "%s:context:raises" % T, "interaction %d: reading the context raised %s: %s" % (n, type(ex).__name__, str(ex)[:120]); seen = exp
+    if not (seen == exp and type(seen) is type(exp)):
+        sig = "%s:context" % T
+        if isinstance(seen, dict) and isinstance(exp, dict) and all(seen.get(a) == b for a, b in exp.items()) and len(seen) == len(exp) + 1:
+            sig = "context:label-leak" + (":sparse-arff-by-index" if k["src"] == "arffS" and k["by"] == "index" else "")
+        yield sig, "interaction %d: context %r, expected the features without the label %r" % (n, seen, exp)
+    else:
+        # the same features by position / by key, for contexts that are views rather than plain containers
+        raw = g["context"]
         try:
-            seen = _ctx_view(g["context"])
-        except Exception as e:
-            yield "%s:context:raises" % T, "interaction %d: reading the context raised %s: %s" % (n, type(e).__name__, str(e)[:120]); seen = exp
-        if not (seen == exp and type(seen) is type(exp)):
-            sig = "%s:context" % T
-            if isinstance(seen, dict) and isinstance(exp, dict) and all(seen.get(a) == b for a, b in exp.items()) and len(seen) == len(exp) + 1:
-                sig = "context:label-leak" + (":sparse-arff-by-index" if k["src"] == "arffS" and k["by"] == "index" else "")
-            yield sig, "interaction %d: context %r, expected the features without the label %r" % (n, seen, exp)
-        else:
-            # the same features by position / by key, for contexts that are views rather than plain containers
-            raw = g["context"]
-            try:
-                if isinstance(exp, list) and not isinstance(raw, list):
-                    byidx = [raw[j] for j in range(len(raw))]
-                    if byidx != exp: yield "%s:context:getitem" % T, "interaction %d: context read by position %r, expected %r" % (n, byidx, exp)
-                elif isinstance(exp, dict) and not isinstance(raw, dict):
-                    bykey = {key: raw[key] for key in exp}
-                    if bykey != exp: yield "%s:context:getitem" % T, "interaction %d: context read by key %r, expected %r" % (n, bykey, exp)
-            except Exception as e:
-                yield "%s:context:getitem" % T, "interaction %d: reading the context %r by position / key raised %s: %s" % (n, exp, type(e).__name__, str(e)[:100])
-        # ---- one action set: the labels of the data ----
-        if T in ("c", "m"):
-            acts = g["actions"]
-            want = [to_py(a) for a in o["acts"]]
-            try:
-                acts = list(acts)
-                ok = len(acts) == len(want) and all(any(a == w for a in acts) for w in want)
-            except Exception:
-                ok = False
-            if not ok:
-                yield "%s:actions" % T, "interaction %d: actions %r, expected exactly the labels %r" % (n, g["actions"], want)
-            elif first is None: first = acts
-            elif acts != first:
-                yield "%s:actions:vary" % T, "interaction %d offers %r but interaction 0 offers %r" % (n, acts, first)
-        # ---- rewards ----
-        rw = g["rewards"]
-        for a, (num, den) in o["rw"]:
-            pa = to_py(a)
-            try:
-                val = rw(pa)
-                val = float(val)
-            except Exception as e:
-                sig = "%s:reward:raises" % T
-                if T == "m" and isinstance(e, TypeError) and isinstance(pa, (int, float)): sig = "m:reward:unsized-label"
-                yield sig, "interaction %d: rewards(%r) raised %s: %s (expected %d/%d)" % (n, pa, type(e).__name__, str(e)[:100], num, den); continue
-            if abs(val - num / den) > 1e-9:
-                sig = "%s:reward" % T
-                if T == "m" and isinstance(pa, str) and len(pa) > 1: sig = "m:reward:multichar-label"
-                yield sig, "interaction %d: rewards(%r) = %r, expected %d/%d (true label %s)" % (n, pa, val, num, den, rw)
+            if isinstance(exp, list) and not isinstance(raw, list):
+                byidx = [raw[j] for j in range(len(raw))]
+                if byidx != exp: yield "%s:context:getitem" % T, "interaction %d: context read by position %r, expected %r" % (n, byidx, exp)
+            elif isinstance(exp, dict) and not isinstance(raw, dict):
+                bykey = {key: raw[key] for key in exp}
+                if bykey != exp: yield "%s:context:getitem" % T, "interaction %d: context read by key %r, expected %r" % (n, bykey, exp)
+        except Exception as ex:
+            yield "%s:context:getitem" % T, "interaction %d: reading the context %r by position / key raised %s: %s" % (n, exp, type(ex).__name__, str(ex)[:100])
+    # ---- one action set: the labels of the data ----
+    if T in ("c", "m"):
+        acts = g["actions"]
+        try:
+            acts = list(acts)
+            ok = len(acts) == len(want) and all(any(a == w for a in acts) for w in want)
+        except Exception:
+            ok = False
+        if not ok:
+            yield "%s:actions" % T, "interaction %d: actions %r, expected exactly the labels %r" % (n, g["actions"], want)
+        elif first is not None:
+            if first[0] is None: first[0] = acts
+            elif acts != first[0]:
+                yield "%s:actions:vary" % T, "interaction %d offers %r but interaction 0 offers %r" % (n, acts, first[0])
+    # ---- rewards ----
+    rw = g["rewards"]
+    for pa, num, den in probes:
+        try:
+            val = float(rw(pa))
+        except Exception as ex:
+            sig = "%s:reward:raises" % T
+            if T == "m" and isinstance(ex, TypeError) and isinstance(pa, (int, float)): sig = "m:reward:unsized-label"
+            yield sig, "interaction %d: rewards(%r) raised %s: %s (expected %d/%d)" % (n, pa, type(ex).__name__, str(ex)[:100], num, den); continue
+        if abs(val - num / den) > 1e-9:
+            sig = "%s:reward" % T
+            if T == "m" and isinstance(pa, str) and len(pa) > 1: sig = "m:reward:multichar-label"
+            yield sig, "interaction %d: rewards(%r) = %r, expected %d/%d (true label %s)" % (n, pa, val, num, den, rw)
